@@ -138,7 +138,7 @@ theorem updateAll_eff {c s} (hs : Shape c s) {l : Nat} (hl : l < c.layers.length
     Eff c s (forRanks c s fun s r => updateFactor s r l isA α) (fun r' l' => r' < c.world ∧ l' = l)
       (gUpd isA α) :=
   forRanks_effQ (fun _ => True) c _ l _ s (fun _ _ _ => trivial)
-    (fun s' x hx _ hsh _ => updateFactor_eff hsh hx hl isA α) hs trivial
+    (fun _ _ hx _ hsh _ => updateFactor_eff hsh hx hl isA α) hs trivial
 
 /-! ### `flushBucket` -/
 
